@@ -69,10 +69,9 @@ restarts, any overlap of their checkpoint lists, any request (duplicate names in
 theorem checkpoint_pipeline_lemma {α : Type} (toAurel : String → String) (cats : List Cat)
     (hnd : (cats.map (·.num)).Nodup) (files : Nat → List (CFile α)) (var : List String)
     (hvar : var ≠ []) (hinj : ∀ a ∈ var, ∀ b ∈ var, toAurel a = toAurel b → a = b)
-    (ht : ∀ v ∈ var, toAurel v ≠ "t") (rl : Nat) (cm : Nat → CMax)
+    (ht : ∀ v ∈ var, toAurel v ≠ "t") (rl : Nat)
     (A : Nat → Nat → String → Arr3 α) (tm : Nat → Nat → Nat)
-    (hcm : ∀ r l, l ≠ [] → (∀ it ∈ l, pick true cats it = some r) → findCmax (files r) l = some (cm r))
-    (hgood : ∀ r it, pick true cats it = some r → GoodIt (cm r) (files r) it rl var (A r it) (tm r it))
+    (hgood : ∀ r it, pick true cats it = some r → GoodItAuto (files r) it rl var (A r it) (tm r it))
     (its : List Nat) :
     readETData true cats none its (fun r l => readCheckpoints toAurel (files r) var l rl)
       = some ((rowsOf true cats its).map Prod.fst,
@@ -92,8 +91,7 @@ theorem checkpoint_pipeline_lemma {α : Type} (toAurel : String → String) (cat
     (ckCell toAurel var.eraseDups A tm) _ (by
       intro r l hl hs hp
       have hss := sortedSet_of_strict l hs
-      have := readCheckpoints_good toAurel (files r) var hvar hinj ht l rl (cm r)
-        (by rw [hss]; exact hcm r l hl hp) (A r) (tm r)
+      have := readCheckpoints_good toAurel (files r) var hvar hinj ht l hl rl (A r) (tm r)
         (by rw [hss]; intro iit hi; exact hgood r iit (hp iit hi))
       rw [this, hss]
       exact congrArg some (checkpoint_table_ideal toAurel var.eraseDups hinj' ht' A tm r l)) its]
